@@ -19,6 +19,7 @@ pub struct Stats {
     pub top_esi: AtomicU64,
     pub big_blocks: AtomicU64,
     pub block_level: AtomicU64,
+    pub huge_symbols: AtomicU64,
 }
 
 pub struct Case {
@@ -43,6 +44,23 @@ pub fn gen_case(seed: u64, idx: u64, family: u64, max_kt: usize, max_t: usize) -
         let Al = *rng.pick(&[1usize, 4]);
         let N = if rng.chance(1, 3) { rng.range(1, (T / Al) as u64) as usize } else { 1 };
         Shape { F: K * T - rng.below(T as u64) as usize, T, Z: 1, N, Al }
+    } else if family == 2 {
+        // huge symbols: T over the whole 16-bit range, few symbols (slabs of several MiB)
+        let Al = *rng.pick(&[1usize, 2, 4, 8]);
+        let units = match rng.below(4) {
+            0 => 65535 / Al,
+            1 => rng.range(4096 / Al as u64, 65535 / Al as u64) as usize,
+            _ => rng.range(1500 / Al as u64, 20000 / Al as u64) as usize,
+        };
+        let T = units * Al;
+        let N = match rng.below(3) {
+            0 => 1,
+            1 => rng.range(1, 8) as usize,
+            _ => rng.range(1, units as u64) as usize,
+        };
+        let Kt = rng.range(1, 120) as usize;
+        let Z = rng.range(1, Kt.min(3) as u64) as usize;
+        Shape { F: Kt * T - rng.below(T as u64) as usize, T, Z, N, Al }
     } else {
         gen_shape(&mut rng, max_kt, max_t, 8)
     };
@@ -290,7 +308,7 @@ pub fn run(ctx: &Ctx) -> i32 {
         ctx.nontrivial(2);
         return ctx.finish("replay of one recorded case", &[], vec![]);
     }
-    let n = ctx.args.ex_u64("n", ctx.args.pick(12000, 150000)) as usize;
+    let n = ctx.args.ex_u64("n", ctx.args.pick(60000, 600000)) as usize;
     let (max_kt, max_t) = (ctx.args.ex_u64("max_kt", 320) as usize, ctx.args.ex_u64("max_t", 1024) as usize);
     par_for(n, |i| {
         if ctx.too_many_violations() {
@@ -318,7 +336,17 @@ pub fn run(ctx: &Ctx) -> i32 {
         st.big_blocks.fetch_add(1, Relaxed);
         ctx.eval(1);
     });
+    let nhuge = ctx.args.ex_u64("nhuge", ctx.args.pick(60, 1500)) as usize;
+    par_for(nhuge, |i| {
+        let c = gen_case(ctx.seed(), i as u64, 2, 0, 0);
+        let rj = case_json(ctx.seed(), i as u64, 2, 0, 0, &c);
+        run_case(ctx, &c, rj.clone(), &st);
+        run_block_case(ctx, &c, rj, &st);
+        st.huge_symbols.fetch_add(1, Relaxed);
+        ctx.eval(1);
+    });
     let ev = raptorq::verif::events::read();
+    ctx.cov("cases_with_symbol_size_1500_to_65535", J::i(st.huge_symbols.load(Relaxed)));
     ctx.cov("decoder_calls_monitored", J::i(st.calls.load(Relaxed)));
     ctx.cov("cases_completed", J::i(st.completed.load(Relaxed)));
     ctx.cov("cases_never_completed_too_few_packets", J::i(st.never_completed.load(Relaxed)));
@@ -342,7 +370,7 @@ pub fn run(ctx: &Ctx) -> i32 {
     ctx.floor("cases_with_padding", st.padded.load(Relaxed), if q { 100 } else { 20 });
     ctx.floor("cases_answered_Some_through_the_solver_before_all_source_arrived", st.solved_via_repair.load(Relaxed), if q { 300 } else { 20 });
     ctx.finish(
-        "case = valid configuration (stratified F,T,Z,N,Al incl. padding, Kt mod Z != 0, (T/Al) mod N != 0, K crossing 10/11 and the dense/sparse switch) x data (random/zero/0xFF/one-hot/position-coded) x delivery history (random sub-multiset of the encoder's source packets and repair packets with ESIs from {K.., uniform in [K,2^24), 2^24-1}; loss 0-70 %, duplicates 0-3x; in order / reversed / shuffled) x sparse threshold {0,250,inf} x {decode, add_new_packet+get_result}; after EVERY decoder call the return value must be None or exactly the object, and Some once every source packet of every block was delivered; block-level decode must return exactly the block's K*T bytes. non-trivial = the first Some arrived while some block's source set was incomplete (answer produced by the solver); distinct by (shape, threshold, history)",
+        "case = valid configuration (stratified F,T,Z,N,Al incl. padding, symbol sizes up to 65535 and sub-block counts up to T/Al, Kt mod Z != 0, (T/Al) mod N != 0, K crossing 10/11 and the dense/sparse switch) x data (random/zero/0xFF/one-hot/position-coded) x delivery history (random sub-multiset of the encoder's source packets and repair packets with ESIs from {K.., uniform in [K,2^24), 2^24-1}; loss 0-70 %, duplicates 0-3x; in order / reversed / shuffled) x sparse threshold {0,250,inf} x {decode, add_new_packet+get_result}; after EVERY decoder call the return value must be None or exactly the object, and Some once every source packet of every block was delivered; block-level decode must return exactly the block's K*T bytes. non-trivial = the first Some arrived while some block's source set was incomplete (answer produced by the solver); distinct by (shape, threshold, history)",
         &["packets are those produced by the crate's own encoder for the object (the property's domain); byte-exactness of those packets w.r.t. the RFC is C04's business"],
         vec![],
     )
